@@ -34,7 +34,7 @@ META = {
                      "the default MarginalImputer evaluates the model once per inner sample (C06 COUNT)"],
     "assumptions": ["d >= 1 features, n_inner >= 1"],
 }
-MIN_INSTANCES = {"DEFAULTS": 6, "NULL": 20, "ARITY": 20, "LOSSCALL": 9, "NAMES": 4, "BUDGET": 4, "NOMUT": 4, "STORAGE": 2, "RETURN": 4}
+MIN_INSTANCES = {"DEFAULTS": 6, "NULL": 20, "ARITY": 20, "LOSSCALL": 9, "NAMES": 4, "BUDGET": 4, "NOMUT": 4, "STORAGE": 2, "RETURN": 4, "COPY": 3}
 
 ORDER_OPS = {"<", "<=", ">", ">="}
 ARITH = {"+", "-", "*", "/", "**", "%", "//"}
@@ -288,6 +288,16 @@ def _resolve_call(prog, m, cls, fn_node, call):
 
 # ------------------------------------------------------------------------------------------------
 def check(run):
+    _check_own(run)
+    # COPY: a copied explainer keeps its trackers, storage, imputer and counters
+    from .copylib import copy_protocol
+    prog = run.prog
+    for cls in explainer_classes(prog):
+        if cls is not None:
+            copy_protocol(run, prog, cls)
+
+
+def _check_own(run):
     prog = run.prog
     _null(run, prog)
     _arity(run, prog)
@@ -325,6 +335,17 @@ def check(run):
             if method == "explain_one":
                 _nomut_and_return(run, prog, cls, s, fq, fn)
     run.need(n_loss >= 9 or run.findings, f"only {n_loss} loss call sites found (confirmed minimum 9)")
+    # the constructors: the names (and the callables) the user hands in are taken as they are
+    for cls in classes:
+        owner, ifn = prog.find_method(cls, "__init__")
+        if ifn is None:
+            continue
+        si = prog.summarise(cls, "__init__")
+        pn = [a.arg for a in ifn.args.args + ifn.args.kwonlyargs]
+        names_params = [("param", p) for p in pn if "feature_names" in p or p == "feature_names"]
+        for np_ in names_params:
+            _names(run, prog, si, f"{cls.name}.__init__", subset=np_)
+        _callable_attrs(run, prog, cls, si, ifn)
     for cls in imputer_classes(prog):
         s = prog.summarise(cls, "impute")
         _names(run, prog, s, f"{cls.name}.impute", subset=impute_params(prog, cls)[0])
@@ -365,6 +386,13 @@ def _names(run, prog, s, fq, subset=None):
         if t[0] == "fn" and t[1] == "asarray" and t[2] and is_names(t[2][0]) and ("arr", key) not in seen:
             seen.add(("arr", key))
             bad.append((line, "feature names converted to a NumPy array", "np.array(names) coerces mixed names to one dtype"))
+        if t[0] == "res" and isinstance(t[2], str) and t[2].startswith("numpy.") and not t[2].startswith("numpy.random.") and \
+                any(is_names(a) for a in t[3]) and ("np", key) not in seen:
+            seen.add(("np", key))
+            bad.append((line, f"{t[2]}(feature names)",
+                        f"{t[2]} turns the names into one NumPy array: names of mixed types are coerced to one dtype "
+                        f"([1, '1', 2.5] become three strings, two of them equal), so legal name lists are misjudged or "
+                        f"come back as other objects"))
         if is_draw(t) and t[2] in ("numpy.random.permutation", "numpy.random.choice", "numpy.random.shuffle") and t[3] and \
                 is_names(t[3][0]) and ("draw", key) not in seen:
             seen.add(("draw", key))
@@ -377,6 +405,38 @@ def _names(run, prog, s, fq, subset=None):
         run.fail("NAMES", fq, f"{s.path}:{line}", fq, construct, msg)
     if not bad:
         run.ok("NAMES", fq, "no coercing primitive and no ordering on feature names / subsets")
+
+
+FUNCTION_ONLY_ATTRS = ("__name__", "__qualname__", "__code__", "__defaults__", "__kwdefaults__", "__closure__",
+                       "__globals__", "__annotations__", "__wrapped__", "__self__", "__func__", "__module__")
+
+
+def _callable_attrs(run, prog, cls, si, ifn):
+    """The loss / model handed in is any callable with the documented signature: attributes that only plain functions
+    have (`__name__`, `__code__`, ...) may not be read from it without a fallback -- functools.partial objects and
+    instances with __call__ do not have them."""
+    callables = {("param", a.arg) for a in ifn.args.args + ifn.args.kwonlyargs
+                 if any(w in a.arg for w in ("loss", "model", "function"))}
+    bad = None
+    for ev, ctx in walk(si.events, structural=True):
+        for part in ev:
+            if isinstance(part, tuple):
+                for t in ir.subterms(part):
+                    if t[0] == "attr" and t[1] in callables and t[2] in FUNCTION_ONLY_ATTRS:
+                        bad = bad or (t, getattr(ev, "line", si.fn.lineno))
+    for v in si.fields.values():
+        for t in ir.subterms(v):
+            if t[0] == "attr" and t[1] in callables and t[2] in FUNCTION_ONLY_ATTRS:
+                bad = bad or (t, si.fn.lineno)
+    fq = f"{cls.name}.__init__"
+    if bad:
+        t, line = bad
+        run.fail("ARITY", f"{fq}:callable", f"{si.path}:{line}", fq, f"{t[1][1]}.{t[2]}",
+                 f"the constructor reads `{t[2]}` from the {t[1][1]} it is handed: only plain functions have it -- a "
+                 f"functools.partial or an object with __call__ (both legal, same call signature) makes the constructor "
+                 f"raise AttributeError")
+    else:
+        run.ok("ARITY", f"{fq}:callable", "no function-only attribute is read from the callables handed in")
 
 
 def _nomut_and_return(run, prog, cls, s, fq, fn):
